@@ -23,6 +23,9 @@ pub struct WrRun<'a> {
     /// replay every node's history on the real backends with every finisher
     pub real_backends: bool,
     pub check_counter: bool,
+    /// how many of the 20 (backend, finisher) combinations are replayed at the deepest level
+    /// (all 20 at every shallower node); the selection rotates with the node number
+    pub leaf_combos: usize,
 }
 
 struct Node {
@@ -151,9 +154,16 @@ pub fn explore(run: &WrRun) -> Outcome {
         crate::watchdog::enter(|| {
             serde_json::to_string(&json!({"property": run.property, "hang_at": replay_doc(run.e, wbits, run.wrapper, "rec", "flush", &path)})).unwrap()
         });
+        let mut node_bad = false;
         if run.real_backends {
+            let is_leaf = !run.fixpoint && depth >= run.depth;
+            let mut combo = 0usize;
             for backend in REAL_BACKENDS {
                 for finisher in FINISHERS {
+                    combo += 1;
+                    if is_leaf && run.leaf_combos < 20 && (combo + id as usize * 7) % 20 >= run.leaf_combos {
+                        continue;
+                    }
                     out.cov.traces_validated += 1;
                     if let Err((symptom, detail)) = check_real(run.e, wbits, backend, finisher, &path) {
                         let v = Violation {
@@ -166,9 +176,14 @@ pub fn explore(run: &WrRun) -> Outcome {
                             replay: replay_doc(run.e, wbits, run.wrapper, backend, finisher, &path),
                         };
                         push_v(&mut out, &mut sigs, v);
+                        node_bad = true;
                     }
                 }
             }
+        }
+        if node_bad {
+            // the state is already wrong (e.g. corrupt pending bits): its descendants would only repeat the finding
+            continue;
         }
         if !run.fixpoint && depth >= run.depth {
             continue;
